@@ -177,6 +177,8 @@ CHECKS = {
         "assumptions": ["band edges allow |T|*2^-50 + 2ns of float64 rounding"],
         "jobs": [
             {"run": "^TestC10ExpiryBounds$", "n": {"quick": 30000, "thorough": 200000}},
+            # entries stored through the Failover frontend: the TTL of the final store and the stored expiry
+            {"run": "^TestC06Failover$", "name": "C06Failover-for-C10", "n": {"quick": 5000, "thorough": 30000}},
             {"fuzz": "^FuzzC10ExpiryBounds$", "fuzztime": {"thorough": "45s"}, "tiers": ("thorough",), "timeout": {"quick": 300, "thorough": 600}},
         ],
     },
